@@ -112,6 +112,10 @@ def configs(tier):
     add(N=4, M=0, delay=1, latency="zero", space="discrete")
     add(N=4, M=0, delay=0, latency="zero", space="discrete")
     add(N=4, M=1, delay=1, latency="sym", spread=2.0, free_kinds=["quote"], insertion="free-first")
+    # longer delays need a longer grid; without extra quotes these are cheap
+    add(N=6, M=0, delay=3, latency="zero", spread=2.0)
+    add(N=6, M=0, delay=3, latency="zero", space="discrete")
+    add(N=6, M=0, delay=4, latency="zero", spread=2.0, sells=True)
     if tier == "thorough":
         for d in (0, 1, 2, 3):
             if d in (0, 3):      # two extra quotes: 100 k paths per delay (measured), two delays kept
@@ -128,7 +132,7 @@ ANCHORS = ["env.py:TradingEnv.step", "env.py:TradingEnv.reset", "spaces.py:Portf
 EXPECT_REACH = ["episode"]
 ASSUMPTIONS = _A + ["bid/ask of every quote differ by a concrete spread of 2 so that the execution side is visible"]
 BOUNDS = {"quick": "grid of 4 timesteps (3 executions), <= 1 extra quote placed by the solver around the latency "
-                   "boundary, delays 0-2, Box and Discrete spaces",
+                   "boundary, delays 0-2, Box and Discrete spaces; grid of 6 without extra quotes for delays 3-4",
           "thorough": "grid of 5 timesteps, <= 2 extra quotes, delays 0-3, two contracts"}
 OUTSIDE = ["delays > 3, grids > 5", "AsynchronousTransmitter"]
 STUBS = []
